@@ -1130,7 +1130,10 @@ def ill_formed_documents(ctx, big):
     from odxgen import xmlgen
     from odxtools.database import Database
     from odxtools.exceptions import OdxError
-    rng = ctx.sub_rng("ill-formed")
+    import random
+    # the documents of this family do NOT depend on VERIF_SEED: which (element, corruption) pairs are covered is part of the check's
+    # definition (so that the recorded known findings of this class are reproduced by every run, and thorough covers a superset of quick)
+    rng = random.Random("C17/ill-formed-documents/v2")
     seen = set()
 
     def attempt(xml, flag):
@@ -1149,17 +1152,27 @@ def ill_formed_documents(ctx, big):
 
     keep = get_flag()
     try:
-        n_docs = 60 if big else 14
+        n_docs = 60
+        per_tag = {}
+        docs = []
         for i in range(n_docs):
             try:
                 c = G.gen_composite(rng, profile=G.QUICK, name="C")
                 xml = xmlgen.to_xml([c])
             except Exception:  # noqa
                 continue
-            spots = [m for m in re.finditer(r">(-?\d+(?:\.\d+)?)<", xml)]
-            rng.shuffle(spots)
-            for m in spots[:40 if big else 14]:
+            docs.append(xml)
+        quota = 6 if big else 2
+        work = []
+        for i, xml in enumerate(docs):
+            for m in re.finditer(r">(-?\d+(?:\.\d+)?)<", xml):
                 tag = xml[:m.start()].rsplit("<", 1)[-1].split(" ")[0].split(">")[0]
+                if per_tag.get(tag, 0) < quota:
+                    per_tag[tag] = per_tag.get(tag, 0) + 1
+                    work.append((i, xml, m, tag))
+        ctx.count("ill_formed_tags", len(per_tag))
+        for i, xml, m, tag in work:
+            if True:
                 for bad in ("zz", "", "1.5x"):
                     broken = xml[:m.start(1)] + bad + xml[m.end(1):]
                     s1, l, s2 = attempt(broken, True), attempt(broken, False), attempt(broken, True)
